@@ -18,8 +18,13 @@ class Ctx:
         self.config = config
         self.tier = tier
         path, info = extract(root, crate, config)
+        try:
+            self.facts = Facts(path)
+        except (OSError, ValueError):
+            # the cached fact file vanished / was half-written under a concurrent run: extract afresh
+            path, info = extract(root, crate, config, use_cache=False)
+            self.facts = Facts(path)
         self.info = info
-        self.facts = Facts(path)
         self.prog = Program(self.facts)
         self._lm = None
         self.cache = {}
